@@ -329,8 +329,9 @@ def run(tier):
     specs.selfcheck()
     PAIR.clear()
     h = build()
+    mono_ = h.monomorphise(['f32', 'f64'], bound='<S: BaseFloat>', kinds=None, method_syntax=True, soft=True)   # concrete scalar types, both spellings: what a user of f32 / f64 really gets
     S, inv, meta = facts.extract(PROP, h.src())
-    report_dropped(run, meta)
+    report_dropped(run, meta, h)
     run_specs(run, S, h, custom={'mat2quat': c05.check_mat2quat, 'view2t': check_view2t, 'view4': check_view4, 'view3': check_view3, 'viewdec': check_viewdec, 'viewdecq': check_viewdecq, 'qlook': check_qlook, 'view2': check_view2})
     run.floor('roots', len(run.roots), len(h.specs))
     run.assumed.update(A.CTX.assumed)
